@@ -26,7 +26,18 @@ def run_history(req):
     return json.loads(p.stdout.decode().strip().splitlines()[-1])
 
 
-def gen_def(rng, k, known):
+def _overrides_dbsnp(ann, regs):
+    """Does the extends-chain of the extra `ann` already redefine dbSNP_RS with the null-only mixin?  (Mixing it in a
+    second time is a class Python cannot linearise - TypeError - which is outside the property and the model.)"""
+    by = {d["annotation"]: d for d in regs}
+    while ann in by:
+        if ["dbSNP_RS", "RequireNullValue"] in by[ann]["columns"]:
+            return True
+        ann = by[ann].get("extends")
+    return False
+
+
+def gen_def(rng, k, known, regs=()):
     """An extra definition extending a built-in (or an earlier extra) or standing alone."""
     ann = "lab-1.%d.0" % k
     version = rng.choice(["gdc-1.0.0", "lab-1.0.0", ann])
@@ -34,7 +45,7 @@ def gen_def(rng, k, known):
     if kind < 0.45:
         base = rng.choice(["gdc-1.0.0", "gdc-1.0.0-protected", "gdc-1.0.0-public"] + known)
         cols = [["lab_note_%d" % k, "NullableStringColumn"], ["lab_depth_%d" % k, "NullableZeroBasedIntegerColumn"]][:rng.randrange(0, 3)]
-        if rng.random() < 0.3:
+        if rng.random() < 0.3 and not _overrides_dbsnp(base, regs):
             cols.append(["dbSNP_RS", "RequireNullValue"])
         return {"version": version, "annotation": ann, "extends": base, "filtered": rng.choice([None, None, ["Center"] if base.startswith("gdc") else None]),
                 "columns": cols}
@@ -57,7 +68,7 @@ def gen_history(rng):
     for r in range(n_regs):
         defs = []
         for _ in range(rng.choice([1, 1, 2])):
-            defs.append(gen_def(rng, k, [d["annotation"] for d in regs]))
+            defs.append(gen_def(rng, k, [d["annotation"] for d in regs], regs))
             k += 1
         if rng.random() < 0.15 and regs:
             defs.append(dict(rng.choice(regs)))      # repeated registration of an earlier definition
